@@ -84,7 +84,7 @@ _CONTRACTS = ["contract:array_2d_util.resized_array_2d_from", "contract:Abstract
               "contract:AbstractArray2D.padded_before_convolution_from",
               "contract:AbstractArray2D.trimmed_after_convolution_from", "contract:Mask2D.resized_from"]
 MIN_MONITORS = {"*": dict({c: 1 for c in _CONTRACTS},
-                          **{"resize.array": 1, "resize.mask": 1, "resize.nonfinite_border": 20, "resize.geometry_kept": 1, "resize.coords_formula": 1,
+                          **{"resize.array": 1, "resize.mask": 1, "resize.at_fits_load": 20, "resize.nonfinite_border": 20, "resize.geometry_kept": 1, "resize.coords_formula": 1,
                              "resize.coords_grid": 1, "resize.grow_shrink": 1, "resize.mask_grow_shrink": 1,
                              "pad.embedding": 1, "pad.coords_formula": 1, "pad.coords_grid": 1, "padtrim.identity": 1,
                              "padtrim.mask_trimmed_array": 1, "trim.crop": 1, "trim.coords_formula": 1,
@@ -403,6 +403,25 @@ def resize_case(ctx, H, W, nH, nW, v):
                 if Rn.shape == ev.shape and np.array_equal(Rn, ev, equal_nan=True):
                     good = True
             ctx.check(good, "resize.nonfinite_border", got_native=Rn, input=v2, **wit)
+    # resizing while loading: Mask2D.from_fits(resized_mask_shape=..., invert=...) is the mask the file describes (as loaded by
+    # the same call without a resize), resized: centred, padded with False, with the requested geometry
+    if (H + 2 * W + 3 * nH + 5 * nW + v) % 4 == 1:
+        import os
+        import tempfile
+        if getattr(ctx, "_c14_tmp", None) is None:
+            ctx._c14_tmp = tempfile.TemporaryDirectory(prefix="verif_c14_")
+        path = os.path.join(ctx._c14_tmp.name, "mask_%d_%d.fits" % (os.getpid(), H * 100 + W))
+        okw, _ = ctx.guarded("resize.at_fits_load", lambda: mask.output_to_fits(file_path=path, overwrite=True))
+        for inv in ((False, True) if okw else ()):
+            okb, base = ctx.guarded("resize.at_fits_load", lambda: aa.Mask2D.from_fits(file_path=path, pixel_scales=s, origin=o, invert=inv))
+            okr, got = ctx.guarded("resize.at_fits_load", lambda: aa.Mask2D.from_fits(file_path=path, pixel_scales=s, origin=o, invert=inv,
+                                                                                       resized_mask_shape=new))
+            if okb and okr:
+                bm_ = np.array(_np(base)).astype(bool)
+                gm_ = np.array(_np(got)).astype(bool)
+                ctx.check(bm_.shape == (H, W) and np.array_equal(bm_, ~m if inv else m) and match_resize(None, gm_, np.zeros((H, W)), bm_, new, 0)
+                          and geometry_of(got) == (new, s, o), "resize.at_fits_load", invert=inv, loaded_without_resize=bm_, got_mask=gm_,
+                          got_geometry=lambda: geometry_of(got), admissible_offsets=candidates((H, W), new), **wit)
     # enlarging then shrinking back loses nothing - in every parity combination
     G = (max(H, nH), max(W, nW))
     if G != (H, W):
